@@ -191,6 +191,9 @@ func init() {
 	register(&PropDef{
 		ID: "C02",
 		Gen: func(t *rapid.T, tier string) *world.Plan {
+			if rapid.Bool().Draw(t, "lab") {
+				return genScriptLab(t)
+			}
 			// hostile taker against a real maker's bitcoin output
 			p := genPlan(t, genOpts{chains: []string{"btc"}, types: []string{"swapin"}, sched: true, layouts: true, duration: []int{600}})
 			p.Scn.Kind = [2]string{"real", "adv"}
@@ -316,7 +319,22 @@ func init() {
 			ne := rapid.IntRange(0, 5).Draw(t, "nev")
 			for i := 0; i < ne; i++ {
 				p.Chain = append(p.Chain, world.ChainEv{AtMs: rapid.IntRange(500, 300000).Draw(t, "evat"), Chain: pick(t, "evchain", []string{"btc", "lbtc"}),
-					Kind: pick(t, "evkind", []string{"mine", "mine", "mine", "reorg", "reorg-delay"}), N: pick(t, "evn", []int{1, 1, 2, 3, 5, 8, 60, 520, 1010})})
+					Kind: pick(t, "evkind", []string{"mine", "mine", "mine", "reorg", "reorg-delay", "reorg-hold"}), N: pick(t, "evn", []int{1, 1, 2, 3, 5, 8, 60, 520, 1010})})
+			}
+			if rapid.IntRange(0, 2).Draw(t, "reorg-in-window") == 0 && scn.BlockEverySec > 0 {
+				// focused: a reorganisation while a watched transaction has some, but not yet
+				// the required number of confirmations
+				ch := pick(t, "rwchain", []string{"btc", "btc", "lbtc"})
+				bc := pick(t, "rwbc", []int{1000, 30000})
+				p.Watch = append(p.Watch, world.WatchSpec{Chain: ch, Kind: "conf", BroadcastMs: bc, RegisterMs: pick(t, "rwreg", []int{500, bc + 500, bc + scn.BlockEverySec*1000 + 300}),
+					StartOffset: pick(t, "rwstart", []int{0, 0, -1, -3}), Window: pick(t, "rwwin", []uint32{504, 60, 12}), CSV: 1008})
+				period := scn.BlockEverySec * 1000
+				firstBlock := (bc/period + 1) * period
+				k := rapid.IntRange(0, 2).Draw(t, "rwconfs")
+				for i, nre := 0, rapid.IntRange(1, 2).Draw(t, "rwn"); i < nre; i++ {
+					p.Chain = append(p.Chain, world.ChainEv{AtMs: firstBlock + k*period + rapid.IntRange(50, period-50).Draw(t, "rwdelta") + i*period, Chain: ch,
+						Kind: pick(t, "rwkind", []string{"reorg", "reorg-delay", "reorg-hold", "reorg-hold"}), N: rapid.IntRange(1, 2).Draw(t, "rwdepth")})
+				}
 			}
 			for i := range p.Chain {
 				if p.Chain[i].Kind != "mine" {
@@ -420,6 +438,14 @@ func init() {
 		ID: "C29",
 		Gen: func(t *rapid.T, tier string) *world.Plan {
 			p := genPlan(t, genOpts{sched: true, maxNet: 2, silence: true, maxLN: 1, duration: []int{400, 900}})
+			if rapid.IntRange(0, 2).Draw(t, "peer-moves") == 0 {
+				// the counterparty cancels / closes cooperatively at some point of the swap, so that
+				// records carrying a peer's cancel or coop_close exist in non-terminal states too
+				for i, k := 0, rapid.IntRange(1, 2).Draw(t, "nmoves"); i < k; i++ {
+					to := rapid.IntRange(0, 1).Draw(t, "moveto")
+					p.Adv = append(p.Adv, world.AdvMove{Kind: "inject", AtMs: pick(t, "moveat", []int{2080, 2200, 2400, 3000, 5000, 9000, 30000, 90000}), Arg: pick(t, "movetpl", []string{"cancel", "cancel", "coop"}), N: int64(to), M: int64(1 - to)})
+				}
+			}
 			// restart(s) with a changed stored version at assorted moments of the swap
 			n := rapid.IntRange(1, 3).Draw(t, "nver")
 			for i := 0; i < n; i++ {
@@ -555,6 +581,13 @@ func init() {
 				case 2:
 					p.Ops = append(p.Ops, world.Op{AtMs: rapid.IntRange(2000, scn.DurationSec*1000).Draw(t, "opat"), Node: 0, Kind: "connect", Peer: rapid.IntRange(1, 2).Draw(t, "oppeer")})
 				}
+			}
+			// outages of the node's custom-message RPC: the send fails, or the message goes
+			// out and only the acknowledgement is lost
+			for i, nf := 0, rapid.IntRange(0, 2).Draw(t, "noutage"); i < nf; i++ {
+				from := rapid.IntRange(0, scn.DurationSec*1000).Draw(t, "outfrom")
+				p.Faults = append(p.Faults, world.Fault{Node: 0, Site: "net.send", Kind: pick(t, "outkind", []string{"err", "errafter", "errafter"}), FromMs: from,
+					ToMs: from + pick(t, "outlen", []int{5000, 25000, 90000, 700000})})
 			}
 			if rapid.Bool().Draw(t, "sched") {
 				p.SchedSeed = rapid.Uint64Range(1, 1<<32).Draw(t, "schedseed")
